@@ -39,12 +39,35 @@ structure Ag where
 
 namespace Ag
 
+/-- `SendControlRequestWithData`, first part: route lookup, id allocation, pending entry (one critical
+    section).  `none` = no route (nothing allocated). -/
+def issueBegin (a : Ag) (target : Nat) : Option (Ag × Nat) :=
+  if !a.peers.contains target then none
+  else
+    let id := a.next + 1
+    some ({ a with next := id, pending := a.pending.set id () }, id)
+
+/-- … second part: the write to the next hop.  A failed write drops the pending entry; the id stays
+    burnt (`nextControlID` is never decremented). -/
+def issueEnd (a : Ag) (target id : Nat) (ok : Bool) : Ag × List Out :=
+  if ok then (a, [.send target (.req id target [])])
+  else ({ a with pending := a.pending.del id }, [.sendErr])
+
 /-- `SendControlRequestWithData` toward a directly connected target (or with no route). -/
 def issue (a : Ag) (target : Nat) : Ag × List Out :=
   if !a.peers.contains target then (a, [.sendErr])          -- findControlPath: no route
   else
     let id := a.next + 1
     ({ a with next := id, pending := a.pending.set id () }, [.send target (.req id target [])])
+
+/-- a local request whose write to the next hop fails (= `issueBegin` then `issueEnd … false`). -/
+def issueFail (a : Ag) (target : Nat) : Ag × List Out :=
+  if !a.peers.contains target then (a, [.sendErr])
+  else ({ a with next := a.next + 1, pending := (a.pending.set (a.next + 1) ()).del (a.next + 1) }, [.sendErr])
+
+/-- `enterSleep`: every peer connection is closed; the control bookkeeping is kept (requests in
+    flight may still be answered after wake; their ids stay burnt). -/
+def sleep (a : Ag) : Ag := { a with peers := [] }
 
 /-- The caller of local request `id` gives up (context cancelled or timed out): the pending entry is
     dropped; the request itself is in flight and may still be answered, so `nextControlID` keeps its
